@@ -184,7 +184,8 @@ PROPS = {
         "assumptions": ["RefCell's dynamic borrow state is not modelled by Verus (a double borrow_mut would panic); Kani executes the real RefCell"],
     },
     "C07": {
-        "verus": ["pair_pop", "values_num", "interp_tail", "interp_eval", "repl_complete", "macro_transform", "lexer_pos", "base_cmp", "base_folds", "base_pairs"],
+        "verus": ["pair_pop", "values_num", "interp_tail", "interp_eval", "repl_complete", "macro_transform", "macro_match", "lexer_pos", "base_cmp", "base_folds", "base_pairs",
+                  "interp_import", "interp_import_union", "interp_library", "interp_loader"],
         "kani": ["values", "folds"], "native": ["panic_probe", "tail_arity_panic", "vector_panic_witness"],
         "level": "proof",
         "explanation": "Panic-freedom (no overflow, no failing unwrap/expect, no reachable todo!/unreachable!/panic!, no out-of-bounds index) "
